@@ -668,6 +668,35 @@ func main() {
 					if err != nil || !bytes.Equal(d, p.data) {
 						return explore.Failf("helper-roundtrip", "%v", err)
 					}
+					// the payload handed in is a window into a larger receive buffer (two frames parsed
+					// without copying): what lies behind it in that buffer is not the helpers' to touch
+					for _, which := range []string{"Decompress", "DecompressTo", "DecompressFrame", "Compress", "CompressFrame"} {
+						in := c
+						if which == "Compress" || which == "CompressFrame" {
+							in = p.data
+						}
+						big := append(append([]byte{}, in...), bytes.Repeat([]byte{0x5A}, 32)...)
+						win := big[:len(in)]
+						var err error
+						switch which {
+						case "Decompress":
+							_, err = h.Decompress(win)
+						case "DecompressTo":
+							err = h.DecompressTo(io.Discard, win)
+						case "DecompressFrame":
+							_, err = h.DecompressFrame(ws.Frame{Header: ws.Header{Fin: true, Rsv: 4, OpCode: ws.OpText, Length: int64(len(win))}, Payload: win})
+						case "Compress":
+							_, err = h.Compress(win)
+						case "CompressFrame":
+							_, err = h.CompressFrame(ws.NewTextFrame(win))
+						}
+						if err != nil {
+							return explore.Failf("helper-error:"+which, "%v", err)
+						}
+						if !bytes.Equal(big[:len(in)], in) || !bytes.Equal(big[len(in):], bytes.Repeat([]byte{0x5A}, 32)) {
+							return explore.Failf("helper-writes-into-callers-buffer:"+which, "the %d-byte window or the bytes behind it changed", len(in))
+						}
+					}
 					// the streaming variants, into the caller's writer (several payloads through one
 					// writer: each call appends exactly its own output), and with helpers the
 					// application configured itself
